@@ -10,7 +10,7 @@ CHECKS = {
     "C01": ("QcTests/QcSession", "TLC enumerates every base call of the 11 QC functions on short series (incl. empty) and the 'recall' step; the dumped states and seeded random sessions are executed on the real functions and every call is validated by Trace_Qc (totality, shape, alphabet, no mask, arguments unchanged, repeatability)"),
     "C02": ("QcTests/QcSession", "InvC02 model-checked over all missing placements of the bounded instance; every dumped state executed and the logged flags checked by the independent C02Holds clause of Trace_Qc"),
     "C03": ("QcTests/QcSession", "gross_range / valid_range rules over all span pairs of a grid x every value position x four inclusivity settings; replayed and trace-validated"),
-    "C04": ("Aggregate", "algebraic laws (permutation, duplication, grouping, 5x5 table, never-better) model-checked on all entry multisets; every state replayed into qartod_compare / aggregate / PandasStore.compute_aggregate with junk under masks"),
+    "C04": ("Aggregate", "pointwise laws checked COMPLETELY over all 2^8 entry sets (aggregating aggregates, never-better, non-flags ignored: valid for any number and length of vectors); session laws (permutation, duplication, grouping, 5x5 table) model-checked on all entry multisets; every state replayed into qartod_compare / aggregate / PandasStore.compute_aggregate with junk under masks"),
     "C05": ("Pipeline", "every table x window layout x entry placement of MC_Pipeline replayed through all stream front ends; each yield validated against Pipeline!Yields by Trace_Pipeline"),
     "C06": ("Pipeline", "TLC explores every collect order (InvC06, InvC06Prefix); real collect_results fed permutations and prefixes of real ContextResults and validated step by step"),
     "C08": ("QcTests/Calendar", "climatology rule with a TLA+ calendar over every period kind on edge dates; member grids enumerated by TLC, replayed, plus random member lists"),
@@ -57,12 +57,12 @@ def main():
                   "baseline_off_cmd": "cd /repo && /venv/bin/python -m pytest -ra -q -p no:cacheprovider --timeout=900 --continue-on-collection-errors",
                   "source_commits": [], "add_only": True},
         "engines": [
-            {"name": "QcTests/QcSession", "path": "spec/QcTests.tla spec/QcSession.tla spec/MC_QcSession.tla spec/Trace_Qc.tla",
+            {"name": "QcTests/QcSession", "path": "spec/QcBase.tla spec/Calendar.tla spec/QcTests.tla spec/QcSession.tla spec/MC_QcSession.tla spec/GeoTable.tla spec/Trace_Qc.tla",
              "serves_properties": [p for p, (e, _) in sorted(CHECKS.items()) if e.startswith("QcTests")],
              "kind_free_text": "TLA+ transcription of the QC rules + session state machine; TLC model checking, state dump replay, trace validation"},
-            {"name": "Aggregate", "path": "spec/Aggregate.tla spec/MC_Aggregate.tla spec/Trace_Agg.tla", "serves_properties": ["C04"],
+            {"name": "Aggregate", "path": "spec/AggregateOps.tla spec/Aggregate.tla spec/MC_Aggregate.tla spec/Trace_Agg.tla", "serves_properties": ["C04"],
              "kind_free_text": "TLA+ aggregate operator + permutation/duplication/grouping session"},
-            {"name": "ConfigLoad", "path": "spec/ConfigLoad.tla spec/MC_ConfigLoad.tla spec/Trace_Config.tla", "serves_properties": ["C07"],
+            {"name": "ConfigLoad", "path": "spec/ConfigLoadOps.tla spec/ConfigLoad.tla spec/MC_ConfigLoad.tla spec/Trace_Config.tla", "serves_properties": ["C07"],
              "kind_free_text": "TLA+ model of what a configuration denotes, independent of layout and carrier"},
             {"name": "Store", "path": "spec/Store.tla spec/MC_Store.tla spec/Trace_Store.tla", "serves_properties": ["C19"],
              "kind_free_text": "TLA+ statement of the saved frame (FrameOK) on top of PipelineOps / AggregateOps"},
